@@ -130,10 +130,7 @@ func variant(s *channel.State) *channel.State {
 	case 3:
 		k := rt.Choice(2)
 		t.App, t.Data = gen.App(k), gen.Data(k)
-	case 4:
-		if channel.IsNoApp(t.App) {
-			rt.Assume(false)
-		}
+	case 4: // other data, also for a state without app (the encoder writes whatever data is there)
 		t.Data = gen.Data(1)
 	case 5:
 		i, j := rt.Choice(len(t.Balances)), rt.Choice(len(t.Balances[0]))
